@@ -75,6 +75,10 @@ pub(crate) mod verif_c16;
 #[path = "../../verif/c05.rs"]
 pub(crate) mod verif_c05;
 
+#[cfg(litep2p_verif)]
+#[path = "../../verif/c13_manager.rs"]
+pub(crate) mod verif_c13;
+
 // TODO: https://github.com/paritytech/litep2p/issues/268 Periodically clean up idle peers.
 // TODO: https://github.com/paritytech/litep2p/issues/344 add lots of documentation
 
